@@ -185,6 +185,17 @@ def iam_types(a):
                  http=('get', '/v1/{resource=shelves/*}:getPolicy'), sigs=['resource']))
 
 
+@edit
+def dep_message_reserved_field(a):
+    """A plain-protobuf dependency message with a reserved-word field (google.api.MonitoredResource.type), used as a flattened
+    parameter and as REST body (the logging / monitoring API shape)."""
+    a.need_module('google.api.monitored_resource_pb2')
+    r = a.req('WriteEntryRequest', field('log_name', 1, 'string'), field('resource', 2, '.google.api.MonitoredResource'),
+              field('type', 3, 'string'))
+    a.rpc(method('WriteEntry', r, Q('Book'), http=('post', '/v1/{log_name=logs/*}:write', '*'), sigs=['log_name,resource']),
+          method('PutResource', r, Q('Book'), http=('put', '/v1/{log_name=logs/*}/resource', 'resource'), sigs=['log_name,resource,type']))
+
+
 # ---------------------------------------------------------------- services
 
 @edit
@@ -515,6 +526,9 @@ def explicit_routing(a):
                  routing=[('table', 'shelves/*/{book_id=books/*}')]),
           method('RouteInfix', r, Q('Book'), http=('post', '/v1/{name=shelves/*}:routei', '*'),
                  routing=[('table', 'shelves/*/books/{leaf_id=*}/pages/*')]),
+          # explicit routing on a paginated method
+          method('RouteList', Q('ListBooksRequest'), Q('ListBooksResponse'), http=('get', '/v1/{parent=shelves/*}/routedBooks'),
+                 routing=[('parent', '{shelf_id=shelves/*}')], sigs=['parent']),
           # the empty annotation (AIP-4222: no routing header, not even the implicit one)
           method('RouteNone', r, Q('Book'), http=('post', '/v1/{name=shelves/*}:routen', '*'), routing=[]))
 
